@@ -1,204 +1,13 @@
 """C15 — No public call has undefined behaviour, whatever its arguments.
+Assembled from the no-ub theorems of the four API models (tracks / crates x
+schema 1.x / 2.x) and an adversarial-call search on the sanitizer harness."""
+from props import _combine
 
-Tie / failing-input search: adversarial calls of every public operation on
-reachable states, on the sanitizer harness.  The direct oracle is the property
-itself: every outcome must be `ok` or `throw <class derived from std::exception>`
-— never `ub …` (sanitizer / libstdc++ assertion abort, watchdog, foreign throw).
-"""
-import random
-from common import *
-import runner
-import gen_lib as G
-
-ID = "C15"
-REGISTERED = False          # becomes a claimed check once Properties/C15.lean exists
-LEAN_MODULES = []
-THEOREMS = []
-STATELESS = False
-ASSUMPTIONS = []
-TRUSTED_EXTRA = []
-
-FIELDS_OPTSTR = ["album", "artist", "comment", "composer", "genre", "publisher", "title"]
-FIELDS_OPTINT = ["bitrate", "rating", "track_number", "year"]
-
-
-def prefix(rng, schema):
-    """A small reachable state: crates a/b(sub of a)/c(sub of b)/d(root), tracks t1..t3."""
-    L = ["create %s mem" % schema,
-         "mkroot a 41", "mksub b a 42", "mksub c b 43", "mkroot d 44",
-         "mktrack t1 " + G.snapshot(rng),
-         "mktrack t2 " + G.snapshot(rng, minimal=True),
-         "mktrack t3 " + G.snapshot(rng),
-         "addtrack a t1", "addtrack a t2", "addtrack b t2", "addtrack d t3"]
-    L += ["mktrack tx " + G.snapshot(rng, minimal=True), "rmtrack tx"]
-    L += ["mkroot x 58", "rmcrate x"]
-    return L
-
-
-def adversarial(rng):
-    """One adversarial call (a line).  Handles: crates a b c d (x removed), tracks t1 t2 t3 (tx removed)."""
-    t = rng.choice(["t1", "t2", "t3", "t1", "t3", "tx"])
-    c = rng.choice(["a", "b", "c", "d", "x"])
-    kind = rng.randrange(24)
-    i = rng.choice([-1, 0, 1, 7, 8, 9, 2 ** 31 - 1, -2 ** 31])
-    if kind == 0:
-        return "get %s hot_cue_at %d" % (t, i)
-    if kind == 1:
-        return "get %s loop_at %d" % (t, i)
-    if kind == 2:
-        return "set %s hot_cue_at %d %s" % (t, i, G.optcue(rng))
-    if kind == 3:
-        return "set %s loop_at %d %s" % (t, i, G.optloop(rng))
-    if kind == 4:
-        n = rng.choice([0, 1, 7, 8, 9, 12])
-        return "set %s hot_cues %d %s" % (t, n, " ".join(G.optcue(rng) for _ in range(n)))
-    if kind == 5:
-        n = rng.choice([0, 1, 7, 8, 9, 12])
-        return "set %s loops %d %s" % (t, n, " ".join(G.optloop(rng) for _ in range(n)))
-    if kind == 6:
-        return "set %s waveform %s" % (t, G.waveform(rng, rng.choice([0, 1, 5, 1024, 3000])))
-    if kind == 7:
-        v = rng.choice(["none", G.dbits(0.5), G.dbits(0.0), G.dbits(-1.0), G.dbits(1e15), G.dbits(44100.0),
-                        G.dbits(209.0), G.dbits(5e-324), G.dbits(-44100.0)])
-        return "set %s sample_rate %s" % (t, v)
-    if kind == 8:
-        v = rng.choice(["none", "0", "1", "44100", str(2 ** 62), str(2 ** 63 - 1), str(2 ** 64 - 1)])
-        return "set %s sample_count %s" % (t, v)
-    if kind == 9:
-        return "set %s beatgrid %s" % (t, G.grid(rng))
-    if kind == 10:
-        return "set %s %s %s" % (t, rng.choice(FIELDS_OPTSTR), G.ostr(rng.choice([None, b"", G.label(rng, "300"), G.label(rng, "utf8")])))
-    if kind == 11:
-        return "set %s %s %s" % (t, rng.choice(FIELDS_OPTINT), rng.choice(["none", "0", "-1", "101", str(2 ** 31 - 1), str(-2 ** 31)]))
-    if kind == 12:
-        return "set %s %s %s" % (t, rng.choice(["main_cue", "average_loudness", "bpm"]),
-                                 rng.choice(["none", G.dbits(0.0), G.dbits(-0.0), G.dbits(-1.0), G.dbits(1e15), G.dbits(5e-324)]))
-    if kind == 13:
-        return "set %s relative_path %s" % (t, G.hexs(rng.choice([b"", b"noext", b".hidden", b"a/b/c.d.e", b"x." + b"y" * 300, b"/"])))
-    if kind == 14:
-        return "set %s key %s" % (t, rng.choice(["none", "0", "23", "24", "-1", "1000"]))
-    if kind == 15:
-        return "set %s duration %s" % (t, rng.choice(["none", "0", "-1", "999", str(2 ** 62)]))
-    if kind == 16:
-        return "set %s last_played_at %s" % (t, rng.choice(["none", "0", "-1000000000", "999999999", str(2 ** 62)]))
-    if kind == 17:
-        return rng.choice(["snap %s" % t, "get %s waveform" % t, "get %s beatgrid" % t, "get %s hot_cues" % t,
-                           "get %s loops" % t, "get %s containing_crates" % t, "get %s copy" % t, "get %s id" % t,
-                           "get %s valid" % t, "get %s filename" % t, "get %s file_extension" % t,
-                           "get %s relative_path" % t, "get %s duration" % t])
-    if kind == 18:
-        return rng.choice(["crate.q %s name" % c, "crate.q %s parent" % c, "crate.q %s children" % c,
-                           "crate.q %s descendants" % c, "crate.q %s tracks" % c, "crate.q %s copy" % c,
-                           "crate.q %s id" % c, "crate.q %s valid" % c, "crate.q %s sub_by_name 42" % c])
-    if kind == 19:
-        p = rng.choice(["-", "a", "b", "c", "d", "x", c])
-        return "setparent %s %s" % (c, p)
-    if kind == 20:
-        nm = rng.choice([b"", b";", b"a;b", b"B", G.label(rng, "300"), G.label(rng, "utf8")])
-        return rng.choice(["rename %s %s" % (c, G.hexs(nm)), "mksub n %s %s" % (c, G.hexs(nm)),
-                           "mkroot n %s" % G.hexs(nm), "mksub_after n %s %s %s" % (c, G.hexs(nm or b"q"), rng.choice("abcdx")),
-                           "mkroot_after n %s %s" % (G.hexs(nm or b"q"), rng.choice("abcdx"))])
-    if kind == 21:
-        return rng.choice(["addtrackid %s %d" % (c, rng.choice([0, -1, 999, 2 ** 40])), "addtrack %s %s" % (c, t),
-                           "rmtrackfrom %s %s" % (c, t), "cleartracks %s" % c, "rmcrate %s" % c, "rmtrack %s" % t])
-    if kind == 22:
-        return rng.choice(["db.q crate_by_id %d" % rng.choice([0, -1, 999, 2 ** 62]),
-                           "db.q track_by_id %d" % rng.choice([0, -1, 999, 2 ** 62]),
-                           "db.q crates_by_name %s" % G.hexs(rng.choice([b"", b"A", b"zz"])),
-                           "db.q root_by_name %s" % G.hexs(rng.choice([b"", b"A", b"D"])),
-                           "db.q tracks_by_path %s" % G.hexs(rng.choice([b"", b"x"])), "db.q verify", "obs",
-                           "db.q crates", "db.q root_crates", "db.q tracks"])
-    # snapshots with adversarial content through create / update
-    over = {}
-    r = rng.randrange(8)
-    if r == 0:
-        over = {"waveform": G.waveform(rng, 64), "sample_count": "none", "sample_rate": "none"}
-    elif r == 1:
-        over = {"waveform": G.waveform(rng, 64), "sample_count": "100000", "sample_rate": G.dbits(0.5)}
-    elif r == 2:
-        n = rng.choice([9, 12])
-        over = {"hot_cues": "%d %s" % (n, " ".join(G.optcue(rng, True) for _ in range(n)))}
-    elif r == 3:
-        n = rng.choice([9, 12])
-        over = {"loops": "%d %s" % (n, " ".join(G.optloop(rng, True) for _ in range(n)))}
-    elif r == 4:
-        over = {"hot_cues": "2 %s %s" % (G.optcue(rng, True, "300"), G.optcue(rng, True, "empty"))}
-    elif r == 5:
-        over = {"beatgrid": G.grid(rng, rng.choice(["one", "unsorted"])), "sample_count": "44100", "sample_rate": G.dbits(44100.0)}
-    elif r == 6:
-        over = {"relative_path": rng.choice(["none", "s-", G.ostr(b"noext")])}
-    elif r == 7:
-        over = {"sample_count": str(2 ** 63), "sample_rate": G.dbits(1e15), "duration": str(2 ** 62), "rating": "1000",
-                "beatgrid": G.grid(rng, "two")}
-    s = G.snapshot(rng, **over)
-    return rng.choice(["mktrack n1 " + s, "update %s %s" % (t, s)])
-
-
-def run_scripts(scripts):
-    """Run each script; when a line crashes, record it and re-run the script
-    without that line so that the following calls are still exercised."""
-    results = []   # (script, line, outcome)
-    pending = list(scripts)
-    rounds = 0
-    while pending and rounds < 6:
-        rounds += 1
-        outs = runner.run_harness(pending, watchdog=10, stateless=False)
-        nxt = []
-        for sc, (o, reps) in zip(pending, outs):
-            crashed_at = None
-            for k, (l, r) in enumerate(zip(sc, o)):
-                if r == "skipped-after-crash":
-                    break
-                results.append((sc, k, l, r))
-                if r.startswith("ub"):
-                    crashed_at = k
-                    break
-            if crashed_at is not None and crashed_at + 1 < len(sc):
-                nxt.append(sc[:crashed_at] + sc[crashed_at + 1:])
-        # results of re-runs duplicate the prefix lines; dedupe later by (tuple(prefix), line)
-        pending = nxt
-    return results
-
-
-def tie(ctx):
-    rng = random.Random(ctx.seed * 7919 + 15)
-    schemas = G.SCHEMAS if ctx.tier == "thorough" else ["schema_1_6_0", "schema_1_9_1", "schema_1_18_0_os",
-                                                         "schema_2_18_0", "schema_2_21_2"]
-    nscripts = 40 if ctx.tier == "thorough" else 12
-    nadv = 25
-    scripts = []
-    for s in schemas:
-        for _ in range(nscripts):
-            pre = prefix(rng, s)
-            scripts.append(pre + [adversarial(rng) for _ in range(nadv)])
-    res = run_scripts(scripts)
-    seen, hist, violations = set(), {}, []
-    evals = 0
-    ubs = {}
-    for sc, k, l, r in res:
-        key = (sc[0], l)
-        if k < 16 or key in seen:
-            continue
-        seen.add(key)
-        evals += 1
-        cls = r.split()[0] + ((" " + r.split()[1]) if r.startswith(("throw", "ub")) and len(r.split()) > 1 else "")
-        hist[cls] = hist.get(cls, 0) + 1
-        if r.startswith("ub") or r.startswith("missing-output"):
-            opk = " ".join(l.split()[:3] if l.split()[0] in ("get", "set", "crate.q", "db.q") else l.split()[:1])
-            fam = "v1" if "schema_1" in sc[0] else "v2"
-            sig = {"family": fam, "op": opk if l.split()[0] != "set" else " ".join(l.split()[:1] + l.split()[2:3]), "ub": r}
-            ubs.setdefault(json.dumps(sig, sort_keys=True), (sig, sc[:k] + [l], r))
-    for _, (sig, script, r) in sorted(ubs.items()):
-        violations.append({"tag": "ub", "signature": sig,
-                           "header": {"kind": "script", "what": "public call ended in undefined behaviour: " + r},
-                           "body": script})
-    return {"ok": not violations, "evaluations": evals, "distinct_nontrivial": len(seen),
-            "rule": "adversarial calls (indices -1..9 and int extremes, 0..12 slots, labels 0..300 bytes, absent optionals, "
-                    "waveform without rate, rates in (0,1), doubles to 1e15, nonexistent ids, crates from elsewhere in the "
-                    "tree, stale handles) after a prefix building crates a/b/c/d and tracks t1..t3 on the sanitizer harness; "
-                    "distinct = distinct (schema, call line)",
-            "samples": [scripts[0][-1][:200], scripts[-1][-2][:200]],
-            "histograms": hist, "divergences": [], "violations": violations}
-
-
-import json
+_combine.install(globals(), "C15", ["C15_tracks_v1", "C15_tracks_v2", "C15_crates_v1", "C15_crates_v2", "C15_search"], dict(
+    text="",
+    note="see design/C15.md",
+    technique="Lean 4 no-ub theorems over the executable API models (every modelled undefined-behaviour source is an "
+              "explicit `ub` outcome) + sanitizer-instrumented differential replay with adversarial arguments",
+    ref="6/C15"))
+# a claimed check needs at least one theorem-carrying part; the search alone is not a proof
+REGISTERED = bool(THEOREMS)
